@@ -124,6 +124,23 @@ func setElem(r *RNG, v reflect.Value, f *ref.Field, mode Mode) {
 }
 
 func randString(r *RNG, n int, canon bool) string {
+	if !canon && n >= 2 && r.Chance(1, 8) {
+		// valid UTF-8, longer than the field, with a multi-byte character lying across the field boundary:
+		// the wire keeps the first n BYTES, whatever they are
+		runes := []string{"é", "€", "日", "𝄞"}
+		ru := runes[r.Intn(len(runes))]
+		k := 1 + r.Intn(len(ru)-1) // bytes of the rune that still fit
+		if n-k < 0 {
+			k = n
+		}
+		b := make([]byte, 0, n+8)
+		for len(b) < n-k {
+			b = append(b, byte('a'+r.Intn(26)))
+		}
+		b = append(b, ru...)
+		b = append(b, "tail"...)
+		return string(b)
+	}
 	var ln int
 	switch r.Intn(6) {
 	case 0:
